@@ -26,7 +26,7 @@ texts = {
  "C19": "Every argument vector up to length 3 (thorough: 4) over source/destination situations (valid, missing, unparsable, empty, directory, new, existing, missing directory, /dev/full) and flags is run as the real gosk command in a freshly prepared directory - the file-system answers are enumerated like injected faults - and judged against a model of the contract (exit 0/16/17/non-zero, line:col on parse errors, output file == API bytes on success, never a partial image after a failure). Comments containing each Shift_JIS double-byte code (incl. trail bytes 5C/7C), half-width kana, 2- and 3-byte UTF-8 characters, mid-comment and directly before the newline, must not change the output.",
  "C08": "131040 COFF programs (thorough; 4680 quick) are assembled and every object is parsed by an independent strict COFF reader that bounds-checks every offset and count (header, three section headers, symbol records incl. aux, string table length and long-name offsets) and by Go's debug/pe.",
  "C09": "For the same programs: .text must be byte-identical to the flat binary of the source without [FORMAT]; each defined GLOBAL name exactly once as class-2 symbol of section 1 whose value is the sentinel-located offset of its label; long names through the string table; defined symbols in address order, undefined last; the [FILE] name in the .file aux record.",
- "C10": "Operations are assemble(program, destination state) for 20 programs x {absent, longer leftover file, shorter leftover file} and re-assemble-the-same-parsed-tree x 3 (63 operations). Every history of length 1 and 2 from a fresh process (quick: pairs over 15 operations) and, in the thorough tier, every ordered triple as a window of a de Bruijn sequence run on live workers; after every operation the output and diagnostics must equal those of the program as the only operation of a fresh process, and digests of the process-global tables and of the parsed tree must be unchanged.",
+ "C10": "Operations are assemble(program, destination state) for 22 programs x {absent, longer leftover file, shorter leftover file} and re-assemble-the-same-parsed-tree x 3 (69 operations). Every history of length 1 and 2 from a fresh process (quick: pairs over 15 operations) and, in the thorough tier, every ordered triple as a window of a de Bruijn sequence run on live workers; after every operation the output and diagnostics must equal those of the program as the only operation of a fresh process, and digests of the process-global tables and of the parsed tree must be unchanged.",
  "C07": "Every mnemonic the grammar accepts with every operand list up to arity 1 (thorough: 2, and 3 over six kinds) over 15 operand kinds is embedded between sentinels; a statement accepted without any diagnostic must have emitted bytes, and bytes the reference decoder can read must denote the written mnemonic and operands; directives must refuse operands they cannot represent; an undefined symbol in each of 34 operand positions must be diagnosed; file prefixes x unparsable first lines must not make the rest of the file disappear.",
  "C13": "Exhaustive enumeration of short byte strings, token strings, single-token and line mutations and the mnemonic x operand space, each executed on the real pipeline in a worker whose death, recovered panic or missing answer is the failure; scaling families are measured at n = 10..10^4 (thorough 10^5) against a 200x-per-decade envelope.",
  "C11": "Every non-empty subset of the literal sites of six base programs (immediates, displacements, data items, RESB/ALIGNB/ORG operands, far-pointer parts, port numbers; values on both sides of encoding boundaries) is replaced by EQU names with chains of depth 1..4, three body forms and two placements; the output must be byte-identical to the inlined program. 4320 variants, exhaustive within those bounds.",
